@@ -187,10 +187,10 @@ func (v *Verdict) leftover(prop string, res *simrt.Result) {
 	var sites, desc []string
 	for _, l := range res.Leftover {
 		site := l.State
-		if len(l.Stack) > 0 {
-			site += "@" + l.Stack[0]
-		} else if l.Site != "" {
+		if l.Site != "" && l.Site != "external" {
 			site += "@" + l.Site
+		} else if len(l.Stack) > 0 {
+			site += "@" + l.Stack[0]
 		}
 		sites = append(sites, site)
 		desc = append(desc, fmt.Sprintf("task %d (%s) %s", l.ID, l.Name, site))
